@@ -13,9 +13,9 @@ import (
 )
 
 type Lex struct {
-	Ty   byte // K P A S J T O C E
-	B    uint
-	E1   uint // exclusive end (= end+1)
+	Ty byte // K P A S J T O C E
+	B  uint
+	E1 uint // exclusive end (= end+1)
 }
 
 func lexTyCode(t scanner.LexemeType) byte {
